@@ -302,7 +302,8 @@ Proof.
   intros Hfr Hu. assert (Hge : 5 <= lenN fr) by (rewrite Hfr, !lenN_cons; lia).
   cbn [dec_stream]. remember (fr ++ rest) as b eqn:Eb. pose proof Eb as Eb'. rewrite Hfr in Eb. cbn [app] in Eb.
   rewrite Eb at 1. rewrite Hu. replace (lenN fr <? 5) with false by (symmetry; apply N.ltb_ge; lia).
-  rewrite Eb', take_n_app. reflexivity.
+  rewrite Eb'. replace (lenN (fr ++ rest) <? lenN fr) with false by (symmetry; apply N.ltb_ge; rewrite lenN_app; lia).
+  rewrite take_n_app. reflexivity.
 Qed.
 
 Lemma dec_stream_app_frame m rest fuel : wf m = true ->
@@ -404,8 +405,8 @@ Proof.
   pose proof (encode_len_ge m) as Hge.
   rewrite He in *. do 5 (destruct k as [|k]; [reflexivity|]). cbn [firstn length dec_stream]. rewrite Hu.
   replace (lenN (3 :: a :: b :: c :: d :: msg_code m :: enc_body m) <? 5) with false by (symmetry; apply N.ltb_ge; lia).
-  unfold take_n. rewrite lenN_nat. cbn [length] in *. rewrite firstn_length.
-  replace (Nat.leb _ _) with false; [reflexivity|]. symmetry. apply Nat.leb_gt. lia.
+  match goal with |- context [lenN ?x <? lenN ?y] => replace (lenN x <? lenN y) with true; [reflexivity|] end.
+  symmetry. apply N.ltb_lt. unfold lenN. cbn [length] in *. rewrite firstn_length. lia.
 Qed.
 
 (* ---------- helpers for the RFC view of the raw tails ---------- *)
